@@ -78,7 +78,7 @@ def models(ctx):
     th = ctx.thorough
     A = dict(KNames="<- MCKNames", MaxLoads=ctx.pick(4, 5), MaxEnv=ctx.pick(2, 3))
     B = dict(PNames="<- MCPNames", Clients="<- MCClients2", MaxIssue=2, MaxHs=2, MaxEnv=1)
-    B3 = dict(B, MaxIssue=ctx.pick(2, 3))
+    B3 = dict(B, Clients="<- MCClients3", MaxHs=1)
     Bc = dict(PNames="<- MCPNames", Clients="<- MCClients2", MaxIssue=2, MaxHs=1, MaxEnv=1)
     C = dict(TTL=ctx.pick(2, 3), MaxT=ctx.pick(14, 20), MaxEnv=ctx.pick(3, 4))
     jobs = [
@@ -87,7 +87,7 @@ def models(ctx):
         ("A FieldlessIgnored", "MCASpec", A_INV, dict(A, FieldlessIgnored=True), "ABadNeverPublishes", 2),
         ("A SpinOnError", "MCASpec", A_INV, dict(A, SpinOnError=True), "ANoSpin", 2),
         ("A liveness", "MCALive", "PROPERTY AConverges\n", dict(KNames="<- MCKNames1", MaxLoads=3, MaxEnv=2), None, 2),
-        ("B documented design", "BSpec", B_SAFE + B_DOC, B3, None, 8),
+        ("B documented design", "BSpec", B_SAFE + B_DOC, B, None, 6),
         ("B as the code is (safety that must survive)", "BSpec", B_SAFE, dict(Bc, AsyncInstall=True, ServesExpired=True), None, 6),
         ("B AsyncInstall", "BSpec", B_DOC, dict(B, AsyncInstall=True), "BServedFromCache", 4),
         ("B ServesExpired", "BSpec", B_DOC, dict(B, ServesExpired=True), "BExpiredNeverPresented", 4),
@@ -95,6 +95,8 @@ def models(ctx):
         ("C documented design", "CSpec", C_INV, C, None, 2),
         ("C LookupFailDisables", "CSpec", C_INV, dict(C, LookupFailDisables=True), "CTokenKept", 2),
     ]
+    if th:
+        jobs.append(("B documented design, 3 clients", "BSpec", B_SAFE + B_DOC, B3, None, 6))
     out = []
     for name, spec, inv, kw, must, w in jobs:
         cov = th and must is None and spec != "MCALive"
@@ -275,13 +277,19 @@ def gen_a(ctx, dev):
 
 
 def gen_b(ctx, dev):
-    kw = dict(PNames="<- MCPNames", Clients="<- MCClients1", MaxIssue=9, MaxHs=99, MaxEnv=99, AsyncInstall=True,
-              ServesExpired=dev["ServesExpired"], GSteps=ctx.pick(5, 6))
-    r = ctx.tlc("VaultCerts_Gen", cfg_text=cfg("GBSpec", gen=True, **kw), workers=6, timeout=500)
-    if not ctx.need_tlc_ok(r, "VaultCerts_Gen B"):
-        return None
-    hs = [j for j in r.json if "b" in j]
-    ctx.cover("gen", transitions=(r.generated or 0))
+    hs = []
+    for strict in (True, False):
+        kw = dict(PNames="<- MCPNames", Clients="<- MCClients1", MaxIssue=9, MaxHs=99, MaxEnv=99, AsyncInstall=True,
+                  ServesExpired=dev["ServesExpired"], Strict=strict, GSteps=ctx.pick(5, 6) if strict else ctx.pick(4, 5))
+        r = ctx.tlc("VaultCerts_Gen", cfg_text=cfg("GBSpec", gen=True, **kw), workers=6, timeout=500)
+        if not ctx.need_tlc_ok(r, "VaultCerts_Gen B"):
+            return None
+        for j in r.json:
+            if "b" in j:
+                if not strict:
+                    j["nonstrict"] = True
+                hs.append(j)
+        ctx.cover("gen", transitions=(r.generated or 0))
     return hs
 
 
@@ -299,12 +307,16 @@ def gen_c(ctx, dev):
 def pick_b(ctx, hs, n):
     """all histories with a re-issue round first (they are the expensive, interesting ones), the rest sampled"""
     rnd = random.Random(ctx.seed)
+    loose = [h for h in hs if h.get("nonstrict")]
+    hs = [h for h in hs if not h.get("nonstrict")]
     rounds = [h for h in hs if any(e["op"] == "round" for e in h["b"])]
     plain = [h for h in hs if not any(e["op"] == "round" for e in h["b"])]
-    rnd.shuffle(rounds)
-    rnd.shuffle(plain)
-    k = min(len(rounds), n * 2 // 3)
-    return rounds[:k] + plain[:max(0, n - k)]
+    for q in (rounds, plain, loose):
+        rnd.shuffle(q)
+    loose.sort(key=lambda h: any(e["op"] == "round" for e in h["b"]))     # the cheap ones first
+    kl = min(len(loose), n // 5)
+    k = min(len(rounds), (n - kl) * 2 // 3)
+    return rounds[:k] + plain[:max(0, n - kl - k)] + loose[:kl]
 
 
 # ------------------------------------------------------------------ trace validation
@@ -348,7 +360,7 @@ def run(ctx):
         "oracle: docs/content/feature/certificate-stores.md (Vault), ref/proxy.cs.md (Vault, Vault PKI), feature/vault.md, fabio.properties (proxy.cs), ref/proxy.addr.md (strictmatch) and C11's reading of unusable material: something PRESENT that cannot be used (secret listed but unreadable, only one of cert/key, broken PEM, neither field) makes the load unusable as a whole and the previous set stays; an ABSENT entry is a legitimate smaller set",
         "A: a refresh round is atomic with respect to writes to Vault (no write between LIST and the reads); entry names are lower-case host names, one certificate per entry, no client CAs; 2 entry names x 8 entry states x 7 faults of a round; every history on a KV v1 mount, a KV v2 mount and a Vault without the sys/internal/ui/mounts endpoint: the expectations do not mention the mount",
         "A time: the 1 s floor of cert/watch.go is scaled to %d ms by an overlay copy of the file (the repository is not touched); 'no spin' is judged as a lower bound only (a round that published nothing and the next one are at least refresh/3 apart); 'takes effect within one refresh' is judged causally (the set is in effect when the first round after the write has ended)" % REFRESH_MS,
-        "B: listeners with strictmatch=true (without it proxy.addr documents the fall-back to 'the first certificate', modelled as HsFallback and only model-checked); server names are lower-case; Vault PKI answers: issued, 500, sealed, 403, malformed JSON, no private_key, no certificate, broken PEM; x509 times have a resolution of one second, so the re-issue round is played with real 2 s certificates and the one-hour floor of the refresh option scaled to %d ms; one re-issue round and one expiry per history" % PKIREFRESH_MS,
+        "B: listeners with strictmatch=true, and with strictmatch=false, where proxy.addr documents the fall-back to 'the first certificate' (HsFallback; which one is first is left open: the snapshot is built from a map); server names are lower-case; Vault PKI answers: issued, 500, sealed, 403, malformed JSON, no private_key, no certificate, broken PEM; x509 times have a resolution of one second, so the re-issue round is played with real 2 s certificates and the one-hour floor of the refresh option scaled to %d ms; one re-issue round and one expiry per history" % PKIREFRESH_MS,
         "B concurrency: what IS promised is golang.org/x/sync/singleflight in TLSConfig - the handshakes that wait for a name share one issue request (BOneFlight); timers are outside of it; traces are recorded with 1-hour certificates (no timers)",
         "C: one Vault second is scaled to %d ms (overlay copy of cert/vault_client.go); the fake enforces the expiry by the wall clock; a history that disagrees is repeated and reported when it disagrees twice while the process was not frozen" % SEC_MS,
         "the named deviations are probed on the tree; histories and traces are generated / validated for the probed values; AsyncInstall (GetCertificate consults only the asynchronously updated store) is always TRUE in the trace specification (its behaviours include those of the documented design)",
@@ -415,8 +427,8 @@ def run(ctx):
     g = go(ctx, {"VERIF_X07_A": fa, "VERIF_X07_B": fb, "VERIF_X07_C": fc, "VERIF_X07_TRACE_OUT": trace,
                  "VERIF_X07_SEGMENTS": ctx.pick(50, 400), "VERIF_X07_CLIENTS": 6, "VERIF_X07_PER_CLIENT": 3},
            scaled, "X07 replay + recording", ctx.pick(400, 1500))
-    ok_models = judge_models(ctx, mjobs)
     if g is None:
+        judge_models(ctx, mjobs)
         return
     s = g.summary
     # every history leaves a watcher goroutine with a connection behind: further histories go to further processes
@@ -425,6 +437,7 @@ def run(ctx):
         vf.write_ndjson(fb, xb)
         g2 = go(ctx, {"VERIF_X07_A": fa, "VERIF_X07_B": fb}, scaled, "X07 replay (process %d)" % (k + 2), 1500)
         if g2 is None:
+            judge_models(ctx, mjobs)
             return
         if "WARNING: DATA RACE" in g2.out:
             g.out += g2.out
@@ -432,6 +445,7 @@ def run(ctx):
         for key, val in g2.summary.items():
             if isinstance(val, int) and not isinstance(val, bool) and key in s:
                 s[key] += val
+    ok_models = judge_models(ctx, mjobs)
     ctx.log("replay: kv %d histories x 3 mounts (%d rounds, %d handshakes); pki %d histories (%d handshakes, %d issues, %d re-issue rounds, %d retried, %d void); "
             "token %d histories (%d void); recorded %d handshakes / %d events (%d segments dropped); %d fails; %.0fs"
             % (s["kv_histories"], s["kv_rounds"], s["kv_handshakes"], s["pki_played"], s["pki_handshakes"], s["pki_issues"], s["pki_rounds"], s["pki_retries"], s["pki_void"],
